@@ -231,6 +231,10 @@ func argvOp(c *Ctx, line string) {
 		c.Emit(line, fmt.Sprint(len(argvSimple)+len(argvSpecial)+len(argvBatch2)), false)
 		return
 	}
+	if len(w) >= 1 && (w[0] == "anyv" || w[0] == "!anyv" || w[0] == "anymethods") {
+		anyvOp(c, line)
+		return
+	}
 	if len(w) < 2 || (w[0] != "argv" && w[0] != "!argv") {
 		c.Emit(line, "bad-op", false)
 		return
@@ -411,6 +415,7 @@ func runArgv(c *Ctx) {
 		emit(true, "ScanType", I(5), S("u_*"), I(10), S(""))
 	}
 	runArgv2(c, emit)
+	runAnyv(c)
 	// random joint values
 	for i := 0; i < c.N; i++ {
 		d := durs[c.Rng.IntN(len(durs))]
